@@ -32,6 +32,9 @@ type C04Case struct {
 	Files map[string]string `json:"files,omitempty"` // path relative to the case directory
 	Rules [][2]string       `json:"rules,omitempty"` // .falco.yml linter.rules, in file order; nil: no config file
 	Feat  []string          `json:"feat,omitempty"`
+	// Generated: every run gets the -generated flag (docs/configuration.md: lint as generated VCL); the generated
+	// programs carry their #FASTLY macros, so the flag must not change any verdict or count
+	Generated bool `json:"generated,omitempty"`
 }
 
 func init() {
@@ -119,7 +122,21 @@ func genC04(t *rapid.T) any {
 				}
 				// (not in front of a declaration: its unused-variable warning is raised later, at the end of the subroutine)
 				if ignoreable && !strings.Contains(l, "declare local") && !strings.Contains(l, "} if (") && rapid.IntRange(0, 3).Draw(t, "ignore") == 3 {
-					out = append(out, indent+"// falco-ignore-next-line")
+					switch rapid.IntRange(0, 3).Draw(t, "ignoreform") {
+					case 0: // two stacked directives, one rule list each
+						r1 := c04LineRule[rapid.SampledFrom(pool).Draw(t, "r1line")]
+						if r1 == "" {
+							r1 = rapid.SampledFrom(c04RuleNames).Draw(t, "r1")
+						}
+						out = append(out, indent+"// falco-ignore-next-line "+r1)
+						out = append(out, indent+"// falco-ignore-next-line "+rapid.SampledFrom(c04RuleNames).Draw(t, "r2"))
+						feat["ignore-comment-stacked"] = true
+					case 1: // one directive with a rule list
+						out = append(out, indent+"// falco-ignore-next-line "+rapid.SampledFrom(c04RuleNames).Draw(t, "r1")+", "+rapid.SampledFrom(c04RuleNames).Draw(t, "r2"))
+						feat["ignore-comment-with-rules"] = true
+					default:
+						out = append(out, indent+"// falco-ignore-next-line")
+					}
 					feat["ignore-comment"] = true
 				}
 				out = append(out, indent+l)
@@ -138,9 +155,13 @@ func genC04(t *rapid.T) any {
 		// shuffle; an ignore comment stays in front of its line, declarations go first
 		var pairs [][]string
 		for i := 0; i < len(out); i++ {
-			if strings.HasSuffix(out[i], "falco-ignore-next-line") && i+1 < len(out) {
-				pairs = append(pairs, []string{out[i], out[i+1]})
-				i++
+			j := i
+			for j < len(out) && strings.Contains(out[j], "falco-ignore-next-line") {
+				j++
+			}
+			if j > i && j < len(out) {
+				pairs = append(pairs, append([]string{}, out[i:j+1]...))
+				i = j
 			} else {
 				pairs = append(pairs, []string{out[i]})
 			}
@@ -273,6 +294,10 @@ func genC04(t *rapid.T) any {
 		}
 	}
 	c.Main = b.String()
+	c.Generated = rapid.IntRange(0, 5).Draw(t, "generated") == 5
+	if c.Generated {
+		feat["flag:-generated"] = true
+	}
 	if rapid.IntRange(0, 99).Draw(t, "config") >= 40 {
 		k := rapid.IntRange(1, 5).Draw(t, "nrules")
 		seen := map[string]bool{}
@@ -311,7 +336,12 @@ type c04Ref struct {
 // The reference lints a copy of the case in which every ignore directive is replaced by an ordinary
 // comment, and removes the diagnostics of the covered lines itself (covered[file base name][line]),
 // so that it does not depend on the linter's handling of ignore comments.
-func c04Reference(dir string, files map[string]string, rules [][2]string, covered map[string]map[int]bool) (ref c04Ref, infra error) {
+type c04Cover struct {
+	all   bool
+	rules map[string]bool
+}
+
+func c04Reference(dir string, files map[string]string, rules [][2]string, covered map[string]map[int]*c04Cover) (ref c04Ref, infra error) {
 	rs, err := resolver.NewFileResolvers(filepath.Join(dir, "main.vcl"), []string{filepath.Join(dir, "inc")})
 	if err != nil {
 		return ref, err
@@ -371,7 +401,7 @@ func c04Reference(dir string, files map[string]string, rules [][2]string, covere
 		}
 	}
 	for _, e := range lt.Errors {
-		if covered[filepath.Base(e.Token.File)][e.Token.Line] {
+		if cv := covered[filepath.Base(e.Token.File)][e.Token.Line]; cv != nil && (cv.all || cv.rules[string(e.Rule)]) {
 			ref.ignored++
 			continue
 		}
@@ -509,17 +539,35 @@ func checkC04(raw json.RawMessage) iso.Result {
 	if err := os.MkdirAll(filepath.Join(rdir, "inc"), 0o755); err != nil {
 		return iso.Failf("INFRA: %v", err)
 	}
-	covered := map[string]map[int]bool{}
+	covered := map[string]map[int]*c04Cover{}
 	strip := func(rel, data string) string {
 		ls := strings.Split(data, "\n")
-		for i, l := range ls {
-			if strings.Contains(l, "falco-ignore-next-line") {
-				ls[i] = strings.Replace(l, "falco-ignore-next-line", "an ordinary comment", 1)
-				if covered[filepath.Base(rel)] == nil {
-					covered[filepath.Base(rel)] = map[int]bool{}
-				}
-				covered[filepath.Base(rel)][i+2] = true // the directive stands on line i+1, it covers the statement on the next line
+		for i := 0; i < len(ls); i++ {
+			if !strings.Contains(ls[i], "falco-ignore-next-line") {
+				continue
 			}
+			// a run of directive lines covers the statement on the first line after the run,
+			// for the union of their rule lists (a directive without a list covers every rule)
+			cv := &c04Cover{rules: map[string]bool{}}
+			j := i
+			for j < len(ls) && strings.Contains(ls[j], "falco-ignore-next-line") {
+				_, list, _ := strings.Cut(ls[j], "falco-ignore-next-line")
+				if strings.TrimSpace(list) == "" {
+					cv.all = true
+				}
+				for _, r := range strings.Split(list, ",") {
+					if r = strings.TrimSpace(r); r != "" {
+						cv.rules[r] = true
+					}
+				}
+				ls[j] = strings.Replace(ls[j], "falco-ignore-next-line", "an ordinary comment", 1)
+				j++
+			}
+			if covered[filepath.Base(rel)] == nil {
+				covered[filepath.Base(rel)] = map[int]*c04Cover{}
+			}
+			covered[filepath.Base(rel)][j+1] = cv // line numbers are 1-based: ls[j] is line j+1
+			i = j
 		}
 		return strings.Join(ls, "\n")
 	}
@@ -565,6 +613,9 @@ func checkC04(raw json.RawMessage) iso.Result {
 	refText := fmt.Sprintf("reference: syntax error=%q, effective (errors,warnings,infos)=%v (before overrides %v)", ref.syntax, ref.triple, ref.original)
 	var first *c04Run
 	for _, flags := range c04Flags {
+		if c.Generated {
+			flags = append([]string{"-generated"}, flags...)
+		}
 		run, err := c04Exec(dir, flags)
 		if err != nil {
 			return iso.Failf("INFRA: cannot run falco: %v", err)
